@@ -196,6 +196,8 @@ def data_gate(ctx, prog):
             else:
                 ctx.fail(R, "gated", "changed_at is bumped although the cutoff suppressed the change (store not under "
                          "did_change == true): equal results no longer stop propagation", fn=M, span=a.span)
+    from .shared import changed_at_stamp_unconditional
+    changed_at_stamp_unconditional(ctx, prog, R)
     # the value written is the current stabilisation number
     for a in ws:
         if a.kind == "set":
